@@ -3,7 +3,7 @@ force rustc's const evaluator to run it, and a run() that evaluates the same pro
 import random
 
 from . import catalog, emit, rules
-from .emit import base_from_u128, base_to_u128, conv_in, rstr
+from .emit import BB, base_from_u128, base_to_u128, conv_in, rstr
 
 
 def enc_out(case, f, x):
@@ -14,11 +14,11 @@ def enc_out(case, f, x):
     if k == "uint":
         return base_to_u128(w, x)
     if k == "sint":
-        return "(%s as i128 as u128)" % x
+        return "(%s(%s) as i128 as u128)" % (BB, x)
     if k == "enum":
         return "(%s_ord(%s) as u128)" % (f["tyref"].lower(), x)
     if k == "optenum":
-        return "(match %s { Ok(v) => %s_ord(v) as u128, Err(e) => vrt::cst::ERR_TAG | (e as u128) })" % (x, f["tyref"].lower())
+        return "(match %s { Ok(v) => %s_ord(v) as u128, Err(e) => vrt::cst::ERR_TAG | (%s(e) as u128) })" % (x, f["tyref"].lower(), BB)
     if k == "nested":
         return base_to_u128(w, "%s.raw_value()" % x)
     raise ValueError(k)
@@ -180,7 +180,7 @@ def const_enum_module(case, nk, seed):
     if e["exhaustive"] == "true":
         first = "(%s_ord(%s::new_with_raw_value(%s)) as u128)" % (low, name, base_from_u128(n, "x"))
     else:
-        first = "(match %s::new_with_raw_value(%s) { Ok(v) => %s_ord(v) as u128, Err(e) => vrt::cst::ERR_TAG | (e as u128) })" % (name, base_from_u128(n, "x"), low)
+        first = "(match %s::new_with_raw_value(%s) { Ok(v) => %s_ord(v) as u128, Err(e) => vrt::cst::ERR_TAG | (%s(e) as u128) })" % (name, base_from_u128(n, "x"), low, BB)
     L.append("        [%s, %s]" % (first, base_to_u128(n, "%s_from_ord(ord).raw_value()" % low)))
     L.append("    }")
     sec.parts.append(("probe", s0 + 1, len(L)))
